@@ -96,6 +96,13 @@ fn check_inner(sub: &str, g: &G, toks: &[char], l: &mut Local) -> CaseRes {
         }
         return fail(case, "C08/panic", format!("parse panicked: {}", m));
     }
+    // the same in check mode: recovery must be just as loud when no output is built (check(), and every
+    // combinator that runs its child in check mode)
+    let c = run_check(&p, s);
+    l.evals += 1;
+    if c.panic.is_none() && (c.has_output != o.has_output || c.errs != o.errs) {
+        return fail(case, "C08/check-mode", format!("check(): has_output={} errors {:?}; parse(): has_output={} errors {:?}", c.has_output, c.errs, o.has_output, o.errs));
+    }
     let mut first = None;
     let mut matched = None;
     for (i, r) in refs.iter().enumerate() {
